@@ -506,17 +506,21 @@ func TestC13Nul(t *testing.T) {
 	// is the illegal character, wherever it stands - the very end included)
 	junk := []string{" @@@", " return (", " }", " 3 += 4;", "\x00", " local q;", " x = \"abc", "", " ", "\n", "\t\n ", "// c", " return 1;"}
 	for _, v := range valid {
-		// a NUL at every byte offset of the script, nothing else changed
-		for at := 0; at <= len(v); at++ {
-			if at > 0 && at < len(v) && (v[at-1] == '"' || v[at] == '"') {
-				continue
+		// an illegal character at every byte offset of the script, nothing else
+		// changed: the NUL, the byte-order mark (wherever it stands - the very
+		// start and the very end included), controls
+		for _, bad := range []string{"\x00", "\ufeff", "\ufeff\ufeff", "\x01", "\x7f"} {
+			for at := 0; at <= len(v); at++ {
+				if at > 0 && at < len(v) && (v[at-1] == '"' || v[at] == '"') {
+					continue
+				}
+				c := &RejectCase{Prop: "C13", Kind: "nul", Script: v[:at] + bad + v[at:], Why: "an illegal character (NUL, byte-order mark, control) is illegal wherever it stands"}
+				if err := runReject(c); err != nil {
+					c.Msg = err.Error()
+					violation(t, "C13", c, "%v", err)
+				}
+				col.Case(c.Script, true, func() interface{} { return map[string]string{"script": fmt.Sprintf("%q", c.Script)} })
 			}
-			c := &RejectCase{Prop: "C13", Kind: "nul", Script: v[:at] + "\x00" + v[at:], Why: "a NUL character is illegal wherever it stands"}
-			if err := runReject(c); err != nil {
-				c.Msg = err.Error()
-				violation(t, "C13", c, "%v", err)
-			}
-			col.Case(c.Script, true, func() interface{} { return map[string]string{"script": fmt.Sprintf("%q", c.Script)} })
 		}
 		for _, j := range junk {
 			for _, sep := range []string{"\x00", "\n\x00", " \x00 "} {
